@@ -127,24 +127,39 @@ SynthStep(r) ==
 \* --- read -> (load | look | compute | clear)* -> save -> read
 ApplyOp(lv, o) == CASE o.op = "load" -> HLoad(lv, o.sel)
                     [] o.op = "look" -> HAccess(lv, o.m)
+                    [] o.op = "poke" -> HPoke(lv, o.m)
                     [] o.op = "compute" -> HCompute(lv)
                     [] o.op = "clear" -> HClear(lv, o.after)
 OpOK(lv, o) == CASE o.op = "load" -> CanLoad(lv, o.sel)
                  [] o.op = "look" -> o.m < Len(lv) /\ lv[o.m + 1].st # "cleared"
+                 [] o.op = "poke" -> o.m < Len(lv) /\ lv[o.m + 1].st # "cleared"
                  [] o.op = "compute" -> TRUE
                  [] o.op = "clear" -> o.after >= 0
 RECURSIVE RunOps(_, _, _)
 RunOps(lv, ops, j) == IF j > Len(ops) THEN lv ELSE RunOps(ApplyOp(lv, ops[j]), ops, j + 1)
 RECURSIVE OpsOK(_, _, _)
 OpsOK(lv, ops, j) == j > Len(ops) \/ (OpOK(lv, ops[j]) /\ OpsOK(ApplyOp(lv, ops[j]), ops, j + 1))
-StoredAt(r, k) == r.stored[CHOOSE j \in 1..Len(r.stored) : r.stored[j].k = k]
-RECURSIVE HContent(_, _, _)
-\* the pixels level k must hold in the second file: those stored in the first one, or, if the level
-\* was erased, the average of the level above
-HContent(r, lv, k) ==
-    IF lv[k[3] + 1].st = "file" THEN DecodeImg(r.c.fmt, StoredAt(r, k).raw)
-    ELSE LET up == <<k[1], k[2], k[3] - 1>> IN
-         Average2x2(HContent(r, lv, up), StoredAt(r, up).w, StoredAt(r, up).h, StoredAt(r, k).w, StoredAt(r, k).h)
+\* the images in memory, one per stored entry; <<>> marks an erased frame
+Idx(r, k) == CHOOSE j \in 1..Len(r.stored) : r.stored[j].k = k
+Above(k) == <<k[1], k[2], k[3] - 1>>
+RECURSIVE Regen(_, _, _)
+\* compute_mipmaps(): erased frames of level m become the average of the frame above, largest level first
+Regen(r, imgs, m) ==
+    IF m >= r.c.mip THEN imgs
+    ELSE Regen(r, [j \in 1..Len(imgs) |->
+                     IF r.stored[j].k[3] = m /\ imgs[j] = <<>>
+                     THEN LET u == Idx(r, Above(r.stored[j].k)) IN
+                          Average2x2(imgs[u], r.stored[u].w, r.stored[u].h, r.stored[j].w, r.stored[j].h)
+                     ELSE imgs[j]], m + 1)
+StepImg(r, imgs, o) ==
+    CASE o.op = "poke" -> [imgs EXCEPT ![Idx(r, <<0, 0, o.m>>)][1] = o.px]        \* frame 0, slice 0, pixel (0, 0)
+      [] o.op = "clear" -> [j \in 1..Len(imgs) |-> IF r.stored[j].k[3] > o.after THEN <<>> ELSE imgs[j]]
+      [] o.op = "compute" -> Regen(r, imgs, 1)
+      [] OTHER -> imgs                                                            \* loading and looking change nothing
+RECURSIVE RunImgs(_, _, _)
+RunImgs(r, imgs, j) == IF j > Len(r.ops) THEN imgs ELSE RunImgs(r, StepImg(r, imgs, r.ops[j]), j + 1)
+\* what save() must write: the images as they are, erased ones regenerated
+FinalImgs(r) == Regen(r, RunImgs(r, [j \in 1..Len(r.stored) |-> DecodeImg(r.c.fmt, r.stored[j].raw)], 1), 1)
 HistStep(r) ==
     LET c == r.c
         f == c.fmt
@@ -152,8 +167,9 @@ HistStep(r) ==
         lv0 == LvInit(c.mip)
         lv == RunOps(lv0, r.ops, 1)
         got == {KeyOf(r.keys[j]) : j \in 1..Len(r.keys)}
-        badraw == {j \in 1..Len(r.pix) : r.pix[j].raw # EncodeImg(f, HContent(r, lv, r.pix[j].k), 1)}
-        badout == {j \in 1..Len(r.pix) : r.pix[j].out # QuantImg(f, HContent(r, lv, r.pix[j].k))}
+        fin == FinalImgs(r)
+        badraw == {j \in 1..Len(r.pix) : r.pix[j].raw # EncodeImg(f, fin[Idx(r, r.pix[j].k)], 1)}
+        badout == {j \in 1..Len(r.pix) : r.pix[j].out # QuantImg(f, fin[Idx(r, r.pix[j].k)])}
     IN IF ~OpsOK(lv0, r.ops, 1) THEN Bad("hist.input", 0)
        ELSE IF r.exc # "" THEN Bad("hist.raised", r.exc)
        ELSE IF r.hdr.err # "" THEN Bad("hist.header", r.hdr.err)
@@ -163,9 +179,9 @@ HistStep(r) ==
        ELSE IF \E j \in 1..Len(r.keys) : <<r.keys[j][4], r.keys[j][5]>> # KeyDim(c, KeyOf(r.keys[j]))
                                           \/ r.keys[j][6] # HiOff(c) + KeyOffset(c, c.mip, KeyOf(r.keys[j])) THEN Bad("hist.layout", HiOff(c))
        ELSE IF badraw # {} THEN LET j == CHOOSE q \in badraw : TRUE IN
-                Bad("hist.bytes", [k |-> r.pix[j].k, raw |-> EncodeImg(f, HContent(r, lv, r.pix[j].k), 1)])
+                Bad("hist.bytes", [k |-> r.pix[j].k, raw |-> EncodeImg(f, fin[Idx(r, r.pix[j].k)], 1)])
        ELSE IF badout # {} THEN LET j == CHOOSE q \in badout : TRUE IN
-                Bad("hist.out", [k |-> r.pix[j].k, out |-> QuantImg(f, HContent(r, lv, r.pix[j].k))])
+                Bad("hist.out", [k |-> r.pix[j].k, out |-> QuantImg(f, fin[Idx(r, r.pix[j].k)])])
        ELSE Good
 
 Verdict(r) == CASE r.k = "ctor" -> CtorStep(r)
